@@ -11,7 +11,8 @@ MANIFEST = dict(
          "regenerated CtxFlow fact (provenance of every context expression handed downstream/upstream), decided by the kernel on every run. Tie: every catalogue operator and random chains with a marker at "
          "subscription, per item, and added by WithContext callbacks: the marker list of every delivered notification equals the model's; oracle: no delivered context is nil / lacks the subscription marker "
          "except the listed known findings (Max on empty: nil; DefaultIfEmpty: Background); ToChannel's context.TODO() was repaired."
-         ' Time-driven and hand-off operators (kind=ctxpair): under bursts with racing timers every notification is delivered with its own context through Delay, DelayEach, Timeout, ThrottleTime, SampleTime, ObserveOn, SubscribeOn and Serialize.',
+         ' Time-driven and hand-off operators (kind=ctxpair): under bursts with racing timers every notification is delivered with its own context through Delay, DelayEach, Timeout, ThrottleTime, SampleTime, ObserveOn, SubscribeOn and Serialize.'
+         " Share / ShareReplay: every subscriber is delivered the values with the context of the subscriber whose Subscribe created the generation (field uctx of kind=share / sharet; Gen.creator in the model). Delay: the delivered payloads are, in order, a prefix of the queued ones whatever the timers do (delay_keeps_context, delay_kth, delay_model_is_instance) - a notification is never delivered with another one's context.",
     technique="Lean 4 proof (per-machine context invariant + generic run theorem) + kernel-decided CtxFlow table regenerated from source + differential correspondence of context markers",
     ref='5/C09')
 
